@@ -73,11 +73,19 @@ func ifaceSelSets(d *gDoc, s *gSchema) []*gSel {
 func c10Case(o *Out, r *Rng) {
 	s := genSchema(r)
 	g := genGraph(r, s)
-	d := genDoc(r, s, docOpts{collisions: false, abstract: false, maxDepth: 4, fewDirs: true})
+	c := r.Intn(9)
+	// c == 8: a field of a member type selected directly under a union-typed field: the union does not define it
+	d := genDoc(r, s, docOpts{collisions: false, abstract: false, maxDepth: 4, fewDirs: true, unionMemberFields: c == 8})
 	fields := allFieldSels(d)
 	kind := ""
 	reject := ""
-	switch c := r.Intn(8); {
+	switch {
+	case c == 8:
+		if !strings.Contains(d.text(), "{") {
+			return
+		}
+		kind = "field"
+		o.Count("undefined-field=of-a-member-type-at-a-union-position (when generated)")
 	case c == 7: // a field of an implementing object type, selected where only the interface is known
 		var cands []*gSel
 		var names [][]string
